@@ -1,14 +1,240 @@
 /-
   SpecKitV.Drv.ExtMiso — driver operations of the generated region `Miso` (extension point: `dispatch op` returns
   `some handler` for the operations this file serves).  Mathlib-free.
+
+  `gmiso siso|numeric|analytic …` executes the GENERATED definitions of speckit/systems.py (Gen/Miso.lean) at `Float`:
+  the `ltf` results are a table sent by the harness (the base estimates XX, YY, XY, S12, S2, M2, navg, fs per bin of every
+  `ltf(...)` call the REAL function made, keyed by the channels it was called with: the generated code asks for the calls ITS source
+  makes, a call that was not recorded reads NaN).  The external solvers are replaced by stand-ins that satisfy their stated
+  contracts on well-conditioned systems: `np.linalg.solve` / `pinv` = Gaussian elimination with partial pivoting (`pinv` = inverse),
+  `np.linalg.cond` = 1-norm condition number; SymPy's solution = Gaussian elimination applied to the TRANSLATED equations
+  (`Gen.….eqns`, probed as an affine function of the unknowns' values).
 -/
 import SpecKitV.Drv.Base
+import SpecKitV.Gen.Miso
 
 namespace Drv.ExtMiso
 open Drv
+open Np.Miso
+
+abbrev C := Cx Float
+
+def cnan : C := ⟨nan, nan⟩
+def czero : C := ⟨0.0, 0.0⟩
+def cdiv (a b : C) : C :=
+  let d := b.re * b.re + b.im * b.im
+  ⟨(a.re * b.re + a.im * b.im) / d, (a.im * b.re - a.re * b.im) / d⟩
+def cabs1 (a : C) : Float := Float.sqrt (a.re * a.re + a.im * a.im)
+
+/-- solve `A x = b` (n × n, complex) by Gaussian elimination with partial pivoting; `none` if a pivot vanishes -/
+def gauss (n : Nat) (A : Nat → Nat → C) (b : Nat → C) : Option (Array C) := Id.run do
+  let mut M : Array (Array C) := (Array.range n).map (fun i => ((Array.range n).map (fun j => A i j)).push (b i))
+  let mut ok := true
+  for c in [0:n] do
+    -- pivot
+    let mut p := c
+    let mut best := -1.0
+    for r in [c:n] do
+      let v := cabs1 ((M.getD r #[]).getD c cnan)
+      if v > best then
+        best := v
+        p := r
+    if !(best > 0.0) then
+      ok := false
+    let rowp := M.getD p #[]
+    let rowc := M.getD c #[]
+    M := (M.set! p rowc).set! c rowp
+    let piv := rowp.getD c cnan
+    for r in [c+1:n] do
+      let row := M.getD r #[]
+      let f := cdiv (row.getD c cnan) piv
+      M := M.set! r ((Array.range (n + 1)).map (fun j => row.getD j cnan - f * rowp.getD j cnan))
+  if !ok then return none
+  let mut x : Array C := Array.replicate n czero
+  for t in [0:n] do
+    let i := n - 1 - t
+    let row := M.getD i #[]
+    let mut s := row.getD n cnan
+    for j in [i+1:n] do
+      s := s - row.getD j cnan * x.getD j cnan
+    x := x.set! i (cdiv s (row.getD i cnan))
+  return some x
+
+/-- inverse by columns; `none` if singular -/
+def inverse (n : Nat) (A : Nat → Nat → C) : Option (Array (Array C)) := Id.run do
+  let mut cols : Array (Array C) := #[]
+  for j in [0:n] do
+    match gauss n A (fun i => if i = j then ⟨1.0, 0.0⟩ else czero) with
+    | none => return none
+    | some x => cols := cols.push x
+  return some cols      -- cols[j][i] = inv[i][j]
+
+def norm1 (n : Nat) (A : Nat → Nat → C) : Float :=
+  (List.range n).foldl (fun m j => let s := (List.range n).foldl (fun s i => s + cabs1 (A i j)) 0.0; if s > m then s else m) 0.0
+
+def floatLA : LinAlg Float where
+  cond n A := match inverse n A with
+    | none => some (1.0 / 0.0)
+    | some cols => some (norm1 n A * norm1 n (fun i j => (cols.getD j #[]).getD i cnan))
+  pinv n A := match inverse n A with
+    | none => fun _ _ => czero
+    | some cols => fun i j => (cols.getD j #[]).getD i cnan
+  solve n A b := match gauss n A b with
+    | none => none
+    | some x => some (fun i => x.getD i cnan)
+
+/-! ### request parsing -/
+
+def chan : M (Option Chan) := do
+  let t ← tok
+  if t == "o" then return some Chan.out
+  if t == "-" then return none
+  match (t.drop 1).toNat? with
+  | some i => if t.startsWith "i" then return some (Chan.inp i) else throw s!"chan:{t}"
+  | none => throw s!"chan:{t}"
+
+def binData : M (Gen.BinData Float) := do
+  let XX ← flt
+  let YY ← flt
+  let xr ← flt
+  let xi ← flt
+  let S12 ← flt
+  let S2 ← flt
+  let M2 ← flt
+  let navg ← flt
+  let fs ← flt
+  return { XX := XX, YY := YY, XY := ⟨xr, xi⟩, S12 := S12, S2 := S2, M2 := M2, navg := navg, fs := fs }
+
+def nanBin : Gen.BinData Float := { XX := nan, YY := nan, XY := cnan, S12 := nan, S2 := nan, M2 := nan, navg := nan, fs := nan }
+
+structure CallRec where
+  a : Chan
+  b : Option Chan
+  bins : Array (Gen.BinData Float)
+
+def calls : M (Array CallRec) := do
+  let n ← nat
+  let mut out : Array CallRec := #[]
+  for _ in [0:n] do
+    let a ← chan
+    let b ← chan
+    let nf ← nat
+    let mut bins := Array.mkEmpty nf
+    for _ in [0:nf] do
+      bins := bins.push (← binData)
+    match a with
+    | some a => out := out.push ⟨a, b, bins⟩
+    | none => throw "chan:first"
+  return out
+
+def specOf (t : Array CallRec) (a : Chan) (b : Option Chan) : Spec Float :=
+  match t.find? (fun r => r.a == a && r.b == b) with
+  | some r => ⟨r.bins.size, fun k => r.bins.getD k nanBin⟩
+  | none => ⟨0, fun _ => nanBin⟩
+
+def ltfOf (t : Array CallRec) : Ltf Float := ⟨fun a => specOf t a none, fun a b => specOf t a (some b)⟩
+
+def fmtC (z : C) : String := s!"{fmt z.re} {fmt z.im}"
+
+def opSiso : M String := do
+  let nf ← nat
+  let t ← calls
+  let r := Gen.SISO_optimal_spectral_analysis (ltfOf t)
+  return joinF ((List.range nf).map r)
+
+/-- optional trailing `H <q·nf complex values>` (row-major `H[i, k]`): the REAL solver's output, to be used instead of a stand-in -/
+def optH (q nf : Nat) : M (Option (Array C)) := do
+  let r ← get
+  if r.pos < r.toks.size then
+    let t ← tok
+    if t != "H" then throw s!"gmiso:expected H, got {t}"
+    let mut a : Array C := Array.mkEmpty (q * nf)
+    for _ in [0:q * nf] do
+      let re ← flt
+      let im ← flt
+      a := a.push ⟨re, im⟩
+    return some a
+  else return none
+
+/-- `np.linalg` stand-in that delivers the REAL solver's column on whichever path the generated code takes: the bin is recognised from
+    the (bitwise identical) first entries of the matrix / right-hand side the generated code hands over; `solve` returns the column,
+    `pinv` returns the rank-one matrix `H e₀ᵀ / S₀` (so that `pinv @ S` is the column); `cond` = 1 -/
+def realLA (_q nf : Nat) (H : Array C) (T00 S0 : Nat → C) : LinAlg Float where
+  cond _ _ := some 1.0
+  pinv _ A :=
+    match (List.range nf).find? (fun k => (A 0 0).re == (T00 k).re && (A 0 0).im == (T00 k).im) with
+    | some k => fun i j => if j = 0 then cdiv (H.getD (i * nf + k) cnan) (S0 k) else czero
+    | none => fun _ _ => cnan
+  solve _ A b :=
+    match (List.range nf).find? (fun k => (A 0 0).re == (T00 k).re && (A 0 0).im == (T00 k).im && (b 0).re == (S0 k).re && (b 0).im == (S0 k).im) with
+    | some k => some (fun i => H.getD (i * nf + k) cnan)
+    | none => some (fun _ => cnan)
+
+def opNumeric : M String := do
+  let q ← nat
+  let nf ← nat
+  let t ← calls
+  let Hreal ← optH q nf
+  let L0 := Gen.MISO_numeric_optimal_spectral_analysis.locals q (ltfOf t) floatLA
+  let la : LinAlg Float := match Hreal with
+    | none => floatLA
+    | some H => realLA q nf H (fun k => L0.Tmat 0 0 k) (fun k => L0.Svec 0 k)
+  let L := Gen.MISO_numeric_optimal_spectral_analysis.locals q (ltfOf t) la
+  let ks := List.range nf
+  let qs := List.range q
+  let s00 := ks.map (fun k => fmt (L.S00 k))
+  let tm := qs.flatMap (fun i => qs.flatMap (fun j => ks.map (fun k => fmtC (L.Tmat i j k))))
+  let sv := qs.flatMap (fun i => ks.map (fun k => fmtC (L.Svec i k)))
+  let hv := qs.flatMap (fun i => ks.map (fun k => fmtC (L.Hvec i k)))
+  let ret := ks.map (fun k => fmt (Gen.MISO_numeric_optimal_spectral_analysis q (ltfOf t) la k))
+  return " ".intercalate ([fmt (Float.ofNat L.nf)] ++ s00 ++ tm ++ sv ++ hv ++ ret)
+
+/-- SymPy stand-in: the translated equations are affine in the unknowns' values; read off `b - A h` by probing with h = 0, e_j and
+    solve `A h = b` per bin -/
+def solveEqns (q nf : Nat) (ltf : Ltf Float) : Nat → Nat → C :=
+  let probe (h : Nat → C) : Nat → Nat → C :=      -- bin, equation -> value
+    let L := Gen.MISO_analytic_optimal_spectral_analysis.locals q ltf (fun p _ => h p)
+    fun k i => Gen.MISO_analytic_optimal_spectral_analysis.eqns q (fun key => L.result key k) i
+  let r0 := probe (fun _ => czero)
+  let rj : Array (Nat → Nat → C) := (Array.range q).map (fun j => probe (fun p => if p = j then ⟨1.0, 0.0⟩ else czero))
+  let sols : Array (Array C) := (Array.range nf).map (fun k =>
+    match gauss q (fun i j => r0 k i - (rj.getD j (fun _ _ => cnan)) k i) (fun i => r0 k i) with
+    | some x => x
+    | none => Array.replicate q cnan)
+  fun p k => (sols.getD k #[]).getD p cnan
+
+def opAnalytic : M String := do
+  let q ← nat
+  let nf ← nat
+  let t ← calls
+  let nk ← nat
+  let mut keys : Array String := #[]
+  for _ in [0:nk] do
+    keys := keys.push (← tok)
+  let Hreal ← optH q nf
+  let ltf := ltfOf t
+  let H : Nat → Nat → C := match Hreal with
+    | none => solveEqns q nf ltf
+    | some h => fun p k => h.getD (p * nf + k) cnan
+  let L := Gen.MISO_analytic_optimal_spectral_analysis.locals q ltf H
+  let ks := List.range nf
+  let vals := keys.toList.flatMap (fun key => ks.map (fun k => fmtC (L.result key.toList k)))
+  let eq := (List.range q).flatMap (fun i => ks.map (fun k =>
+    fmtC (Gen.MISO_analytic_optimal_spectral_analysis.eqns q (fun key => L.result key k) i)))
+  let ret := ks.map (fun k => fmt (Gen.MISO_analytic_optimal_spectral_analysis q ltf H k))
+  return " ".intercalate (vals ++ eq ++ ret)
+
+def opGmiso : M String := do
+  let which ← tok
+  match which with
+  | "siso" => opSiso
+  | "numeric" => opNumeric
+  | "analytic" => opAnalytic
+  | _ => throw s!"gmiso:{which}"
 
 def dispatch (op : String) : Option (M String) :=
   match op with
+  | "gmiso" => some opGmiso
   | _ => none
 
 end Drv.ExtMiso
